@@ -18,6 +18,7 @@ CONSTANTS
   MaxHeight = 3
   MsgMaxHeight = 4
   MaxRecv = 1000000
+  WithOutsider = TRUE
   PropShift = 1
 INIT TraceInit
 NEXT TraceNext
